@@ -302,7 +302,7 @@ def _space_a(out, tier, TaskBuilder, JobBuilder, JobInstance, default_output):
     sigs = []
     for n in range(0, 4 if thorough else 3):
         for i, params in enumerate(_all_signatures(n)):
-            rets = ANNS if n <= 2 else (ANNS[i % 3],)
+            rets = ANNS if n <= (2 if thorough else 1) else (ANNS[i % 3],)
             for ret in rets:
                 sigs.append((params, ret))
     for params, ret in sigs:
@@ -369,7 +369,7 @@ def _space_a(out, tier, TaskBuilder, JobBuilder, JobInstance, default_output):
                     samples.append(inputs)
     npar = 3 if thorough else 2
     bound = (f"every valid signature with 0..{npar} parameters, each positional-or-keyword or keyword-only, annotated none/int/str, with or without a default "
-             f"(None/0/'d'), return annotation none/int/str ({'all three for <=2 parameters, rotating for 3' if thorough else 'all three'}): {len(sigs)} signatures; "
+             f"(None/0/'d'), return annotation none/int/str ({'all three for <=2 parameters, rotating for 3' if thorough else 'all three for <=1 parameter, rotating for 2'}): {len(sigs)} signatures; "
              f"x every positional tuple of length 0..3 over {pool!r}; x every keyword binding where each parameter is unbound or bound to one of "
              f"{'3 (<=2 parameters) or 2 (3 parameters)' if thorough else '3'} values (of the annotated type incl. a falsy one, or of another type); one with_values call then a single-node build. "
              f"non-trivial = at least one value bound")
@@ -486,29 +486,40 @@ def _explore(F, prefix, JobInstance, default_output, nodes, b, edges, depth, alp
     if edges and demanded != "any" and stats["distinct"](edges):
         stats["nontrivial"] += 1
     stats["verdicts"][tag] = stats["verdicts"].get(tag, 0) + 1
-    if depth == 0:
+    if depth == 0 or stats["abort"]:
         return
     snap = _snap_builder(b)
     jobsnap = payload.model_dump() if tag == "ok" else None
+    inputs = _describe(nodes, edges)
+    inputs["then"] = f"one-edge extensions (and their extensions, to depth {depth}) derived from this builder and built"
     for e in alphabet:
         try:
             b2 = _apply_edge(b, e)
         except Exception as ex:  # noqa: BLE001
             F.add(prefix + "/with-edge-never-raises", _describe(nodes, edges + [e]), f"{type(ex).__name__}: {ex}", CLAUSE_EDGES)
             continue
+        # a receiver changed by with_edge invalidates the rest of this trie (its builders no longer are what `edges` says):
+        # report and stop exploring this pair of nodes (also keeps the run time bounded on such code)
+        if b2 is b or (depth >= 2 and _snap_builder(b) != snap):
+            F.add(prefix + "/earlier-builder-unchanged", inputs, f"with_edge{e!r} changed / returned the builder it was called on", CLAUSE_PERSIST)
+            stats["abort"] = True
+            return
         _explore(F, prefix, JobInstance, default_output, nodes, b2, edges + [e], depth - 1, alphabet, stats)
-    inputs = _describe(nodes, edges)
-    inputs["then"] = f"every one-edge extension (and their extensions to depth {depth}) derived from this builder and built"
+        if stats["abort"]:
+            return
     if _snap_builder(b) != snap:
         F.add(prefix + "/earlier-builder-unchanged", inputs, "nodes/edges of the earlier builder object differ from the snapshot", CLAUSE_PERSIST)
+        stats["abort"] = True
     if jobsnap is not None and payload.model_dump() != jobsnap:
         F.add(prefix + "/earlier-job-unchanged", inputs, "model_dump of the previously built job changed", CLAUSE_PERSIST)
+    if stats["abort"]:
+        return
     tag2, payload2 = _build(b, JobInstance)
     if tag2 != tag or (tag == "ok" and payload2.model_dump() != jobsnap):
         F.add(prefix + "/earlier-builder-unchanged", inputs, f"rebuilding the earlier builder gives {tag2} / a different job (was {tag})", CLAUSE_PERSIST)
 
 
-def _space_c(out, tier, TaskBuilder, JobBuilder, JobInstance, default_output):
+def _space_c(out, tier, TaskBuilder, JobBuilder, JobInstance, default_output, deadline):
     t0 = time.time()
     F = _Failures()
     thorough = tier != "quick"
@@ -516,24 +527,39 @@ def _space_c(out, tier, TaskBuilder, JobBuilder, JobInstance, default_output):
     names = ["n0", "n1"]
     alphabet = [(s, f, t, i) for s in names + [GHOST] for f in (None, NOPE_OUTPUT) for t in names + [GHOST] for i in ("a", "k", "b", "zz", 0, 2)]
     small = [(s, f, t, i) for s in names + [GHOST] for f in (None, NOPE_OUTPUT) for t in names + [GHOST] for i in ("a", "k", "zz", 1)]
-    stats = {"cases": 0, "nontrivial": 0, "verdicts": {}, "distinct": None}
+    stats = {"cases": 0, "nontrivial": 0, "verdicts": {}, "distinct": None, "abort": False}
     samples = []
 
     def drive(k0, k1, depth, alpha, distinct):
+        stats["abort"] = False
         stats["distinct"] = distinct  # the secondary runs revisit short edge lists of the main run: those are not counted twice as non-trivial
         nodes = {"n0": k0, "n1": k1}
         snaps = (_snap_task(k0.tb), _snap_task(k1.tb))
-        b = JobBuilder().with_node("n0", k0.tb).with_node("n1", k1.tb)
+        b0 = JobBuilder()
+        b1 = b0.with_node("n0", k0.tb)
+        snap0, snap1 = _snap_builder(b0), _snap_builder(b1)
+        tag1, job1 = _build(b1, JobInstance)
+        _check_case(F, "C19/C", {"n0": k0}, [], tag1, job1, default_output)
+        jobsnap1 = job1.model_dump() if tag1 == "ok" else None
+        b = b1.with_node("n1", k1.tb)
         _explore(F, "C19/C", JobInstance, default_output, nodes, b, [], depth, alpha, stats)
+        inputs = {"nodes": {n: k.label() for n, k in nodes.items()}, "then": "builder with n0 only built, then extended by n1 and edges"}
+        if b is b1 or b1 is b0 or _snap_builder(b0) != snap0 or _snap_builder(b1) != snap1:
+            F.add("C19/C/earlier-builder-unchanged", inputs, "with_node changed / returned the builder it was called on", CLAUSE_PERSIST)
+        if jobsnap1 is not None and job1.model_dump() != jobsnap1:
+            F.add("C19/C/earlier-job-unchanged", inputs, "model_dump of the job built from the one-node builder changed", CLAUSE_PERSIST)
         if (_snap_task(k0.tb), _snap_task(k1.tb)) != snaps:
             F.add("C19/C/tasks-unchanged-by-building", {"nodes": {n: k.label() for n, k in nodes.items()}}, "a TaskBuilder handed to with_node was mutated", CLAUSE_PERSIST)
 
     dense = [(s, None, t, i) for s in names for t in names for i in ("a", "k", "b", "zz", 0, 2)]
     dense_set = set(dense)
+    dense_pairs = 0
     for k0 in menu:
         for k1 in menu:
             drive(k0, k1, 2, alphabet, lambda edges: True)
-            drive(k0, k1, 3, dense, lambda edges: len(edges) == 3)
+            if time.time() < deadline:  # wall-clock guard for a heavily loaded machine; the number of pairs actually done is reported
+                drive(k0, k1, 3, dense, lambda edges: len(edges) == 3)
+                dense_pairs += 1
     deep_pairs = []
     if thorough:
         deep_pairs = [(menu[0], menu[1]), (menu[1], menu[2]), (menu[3], menu[0]), (menu[4], menu[5])]
@@ -544,7 +570,7 @@ def _space_c(out, tier, TaskBuilder, JobBuilder, JobInstance, default_output):
     bound = (f"two nodes n0,n1, every ordered pair of {len(menu)} task kinds (unannotated / int / str returns; positional-or-keyword and keyword-only parameters, defaults, "
              f"values bound positionally (0..3) and by keyword incl. falsy ones); every edge list of length 0..2 over {len(alphabet)} edges = "
              f"source in {{n0,n1,ghost}} x output in {{default,'nope'}} x sink in {{n0,n1,ghost}} x into in {{'a','k','b','zz',0,2}} (self loops and duplicates included)"
-             + f"; plus, for every pair, every edge list of length 0..3 over the {len(dense)} edges with existing tasks and the default output"
+             + f"; plus, for {dense_pairs} of the {len(menu) ** 2} pairs (wall-clock guard), every edge list of length 0..3 over the {len(dense)} edges with existing tasks and the default output"
             + (f"; plus every edge list of length 3 over {len(small)} edges (into in {{'a','k','zz',1}}) for {len(deep_pairs)} pairs" if thorough else "")
              + "; builders are derived as a trie (each prefix builder is extended by every edge, then compared with its snapshot and rebuilt). "
              "non-trivial = at least one edge and the verdict is determined by the property (no unannotated-output -> annotated-parameter keyword edge deciding it). "
@@ -552,7 +578,7 @@ def _space_c(out, tier, TaskBuilder, JobBuilder, JobInstance, default_output):
     out.add_bounded("C19-C nodes x edges", "exhaustive enumeration", bound, stats["cases"], stats["nontrivial"], time.time() - t0, samples, F.items)
 
 
-def _space_r(out, tier, seed, TaskBuilder, JobBuilder, JobInstance, default_output):
+def _space_r(out, tier, seed, TaskBuilder, JobBuilder, JobInstance, default_output, deadline):
     t0 = time.time()
     F = _Failures()
     rng = random.Random(seed)
@@ -574,6 +600,8 @@ def _space_r(out, tier, seed, TaskBuilder, JobBuilder, JobInstance, default_outp
     cases = nontrivial = 0
     samples = []
     for _ in range(n_cases):
+        if cases % 256 == 0 and time.time() > deadline:
+            break
         present = all_names[: rng.randint(1, 4)]
         nodes = {n: rng.choice(kinds) for n in present}
         friendly = rng.random() < 0.6
@@ -587,8 +615,11 @@ def _space_r(out, tier, seed, TaskBuilder, JobBuilder, JobInstance, default_outp
                 edges.append((rng.choice(present + [GHOST]), rng.choice((None, None, default_output, NOPE_OUTPUT, "1", "")), rng.choice(present + [GHOST]),
                               rng.choice(["a", "b", "c", "d", "zz", "", 0, 1, 3])))
         cut = rng.randint(0, len(edges))
-        b = JobBuilder()
-        for n in present:
+        b = first = JobBuilder().with_node(present[0], nodes[present[0]].tb)
+        snap_first = _snap_builder(first)
+        tagf, jobf = _build(first, JobInstance)
+        snap_jf = jobf.model_dump() if tagf == "ok" else None
+        for n in present[1:]:
             b = b.with_node(n, nodes[n].tb)
         for e in edges[:cut]:
             b = _apply_edge(b, e)
@@ -606,15 +637,19 @@ def _space_r(out, tier, seed, TaskBuilder, JobBuilder, JobInstance, default_outp
             F.add("C19/R/earlier-builder-unchanged", inputs, "prefix builder differs from its snapshot", CLAUSE_PERSIST)
         if snap_j is not None and job1.model_dump() != snap_j:
             F.add("C19/R/earlier-job-unchanged", inputs, "job built from the prefix changed", CLAUSE_PERSIST)
+        if _snap_builder(first) != snap_first or (len(present) > 1 and b is first):
+            F.add("C19/R/earlier-builder-unchanged", inputs, "the builder holding only the first node differs from its snapshot after more nodes / edges were added", CLAUSE_PERSIST)
+        if snap_jf is not None and jobf.model_dump() != snap_jf:
+            F.add("C19/R/earlier-job-unchanged", inputs, "job built from the one-node builder changed", CLAUSE_PERSIST)
         cases += 1
-        key = repr((sorted((n, id(k)) for n, k in nodes.items()), edges))
+        key = hash(repr((sorted((n, id(k)) for n, k in nodes.items()), edges)))  # hashes keep the memory small
         if key not in seen:
             seen.add(key)
             if edges and demanded != "any":
                 nontrivial += 1
         if len(samples) < 2 and tag == "ok" and len(edges) >= 3:
             samples.append(inputs)
-    bound = (f"seeded random (seed {seed}): {n_cases} descriptions with 1..4 nodes drawn from {len(kinds)} random task kinds (0..4 parameters of both kinds, random annotations / "
+    bound = (f"seeded random (seed {seed}): {cases} descriptions with 1..4 nodes drawn from {len(kinds)} random task kinds (0..4 parameters of both kinds, random annotations / "
              "defaults / return annotation, 0..3 positional and random keyword values of the annotated type), 0..5 edges (60% drawn among existing endpoints, 40% over "
              "existing/ghost tasks, outputs default/'0'/'nope'/'1'/'', parameters a-d/'zz'/'' and positions 0,1,3); a random prefix is built first and compared afterwards. "
              "non-trivial = distinct description with at least one edge and a verdict determined by the property")
@@ -693,8 +728,10 @@ def run(out, tier, seed):
     from earthkit.workflows.graph import Node
 
     default_output = Node.DEFAULT_OUTPUT
+    start = time.time()
+    quick = tier == "quick"
     _space_a(out, tier, TaskBuilder, JobBuilder, JobInstance, default_output)
     _space_b(out, tier, TaskBuilder, JobBuilder, JobInstance)
-    _space_c(out, tier, TaskBuilder, JobBuilder, JobInstance, default_output)
     _space_d(out, tier, TaskBuilder, JobBuilder, JobInstance)
-    _space_r(out, tier, seed, TaskBuilder, JobBuilder, JobInstance, default_output)
+    _space_c(out, tier, TaskBuilder, JobBuilder, JobInstance, default_output, start + (40 if quick else 600))
+    _space_r(out, tier, seed, TaskBuilder, JobBuilder, JobInstance, default_output, start + (52 if quick else 780))
